@@ -29,6 +29,7 @@ import (
 	"sort"
 	"strings"
 	"testing"
+	"time"
 
 	"github.com/folbricht/desync"
 	"pgregory.net/rapid"
@@ -877,9 +878,11 @@ var spec = &hx.Spec[Case]{
 	Required: []string{"empty-directory", "empty-file", "file>max-chunk", "name:byte>=0x80", "sha256", "pipeline:catar", "pipeline:index", "pipeline:tarin-catar", "pipeline:tarin-addroot-catar",
 		"output:localfs", "output:gnutar", "output:mtree", "kind:symlink", "kind:chr", "kind:blk", "xattrs", "setid-or-sticky", "non-root-owner", "index:chunks>=2", "store:local", "store:mem",
 		"mtime:epoch-node-skipped", "mtime:epoch:dir", "mtime:epoch:file", "mtime:epoch:symlink", "mtime:epoch:chr", "mtime:epoch:blk", "shape:epoch-dir-then-sibling"},
-	Gen:     genCase,
-	Run:     run,
-	Journal: true,
+	Gen: genCase,
+	Run: run,
+	// a case that never returns is a verdict (confirmed by a replay in a fresh process), not a timeout of the run
+	Watchdog: hx.Pick(300*time.Second, 600*time.Second),
+	Journal:  true,
 }
 
 func TestMain(m *testing.M) {
